@@ -146,6 +146,15 @@ CHECKS = {
             "old and new metadata after JSON parsing, checking delegated files byte-for-byte and loading the result with the "
             "real client; the model is run on the abstracted views.",
             NOTE + " The model represents verbatim-copied components by identities (hash of the JSON value).", "5/C17"),
+    "C19": ("Coq proofs tying the cache's file names to the names the client fetched its trusted documents under, plain-entry "
+            "and distinctness of cached role file names, completeness of the root chain; end-to-end cache / reload runs",
+            "Theorems: the files copied as timestamp, snapshot and targets are those whose contents the client trusts; cached "
+            "delegated-role names are plain directory entries and pairwise distinct; every root version 1..N is written when "
+            "the chain is requested; cached targets go through save_target (C06/C08: verified-only, confined). Partial: "
+            "'the copy loads with identical versions and targets read back identical' is established by the runs (odd role "
+            "and target names, subsets, root chains, corrupted sources, both settings, directory listings), not proved for "
+            "the composed system. Known finding: url_encoded_target_name.",
+            NOTE + MODELLED, "5/C19"),
 }
 
 PENDING_REASON = "check not yet built in this revision of /verif (design exists in DESIGN.md section 5); no claim made"
